@@ -276,6 +276,14 @@ where
         let b: Array2<f64> = self.bsplmatrix(tau, left_n, right_n);
         let ya: Array1<T> = Array1::from_vec(y.to_owned());
         let c: Array1<T> = fdsolve(&b.view(), &ya.view(), allow_lsq);
+        #[allow(clippy::eq_op)]
+        if c.iter().any(|v| v != v) {
+            // NaN coefficients: the collocation matrix is singular, e.g. a B-spline without a
+            // data site, repeated data sites, or an end derivative of order >= k.
+            return Err(PyValueError::new_err(
+                "`csolve` cannot complete: the data sites `tau` (with `left_n`, `right_n`) give a singular system.",
+            ));
+        }
         self.c = Some(c);
         Ok(())
     }
